@@ -256,7 +256,9 @@ func TestPropCLI(t *testing.T) {
 		c.Fastq = rapid.Bool().Draw(rt, "fastq")
 		c.Mode = pick(rt, "mode", "u", "u", "keep", "")
 		c.MaxCPU = pick(rt, "max_cpu", 0, 1, 2, 4)
-		n := rapid.IntRange(8, 30).Draw(rt, "nreads")
+		// (one to three reads: an input file smaller than the sample sheet - the format detection of
+		// the two files shares package-global state)
+		n := rapid.OneOf(rapid.IntRange(8, 30), rapid.IntRange(8, 30), rapid.IntRange(1, 3)).Draw(rt, "nreads")
 		nontrivial := false
 		for i := 0; i < n; i++ {
 			rd, _ := genRead(rt, sh, ms)
